@@ -29,6 +29,9 @@ RULE = (
 )
 MIN_NONTRIVIAL = {"quick": 90, "thorough": 8500}
 SHARDS = {"quick": 4, "thorough": 16}
+# (two 700 000-step runs kept side by side take minutes when 16 shards share the machine: sweep #11 met the
+#  default 300 s; the watchdog only guards against a hang)
+CASE_WATCHDOG_S = 1800
 GENERATOR = {"nx": [3, 4, 5, 10, 30, 80, 200, 400], "nt": "2..300", "p_f/p_i": [0.01, 0.1, 0.3, 0.5, 0.7, 0.9, 0.99, 0.999, 1.0, "random"]}
 ASSUMPTIONS = [
     "rounding-level tolerance of the bounds: 1e-9 R + 1e-11 |m_i| (the second term is the floor when R << m_i)",
